@@ -55,9 +55,25 @@ def _deep_scopes(text):
     return mx
 
 
+_LONG_ID = re.compile(r"[A-Za-z][A-Za-z0-9_]{200,}")
+_ITEMS = re.compile(r"(?is)\b(?:enumeration\s+of|select)\s*\(([^)]{5000,})\)")
+
+
+def _long_id(t, tool, o):
+    return tool != "check-express" and bool(_LONG_ID.search(t))
+
+
+# sig of an open finding -> (shape description, predicate(text, tool, opts)): cases with the shape are not generated while the finding
+# is open (two probes per worker are let through so that the finding keeps being re-found)
 AVOID = {
-    "shape:tail-remark-after-semicolon": ("';' followed by a tail remark of 250+ characters (last_comment_[256])", lambda t, tool, o: bool(_TAIL.search(t))),
-    "shape:scope-depth-20": ("scopes nested 19 or more deep (scopes[20])", lambda t, tool, o: _deep_scopes(t) >= 18),
+    "global-buffer-overflow:SCANprocess_semicolon": ("';' followed by a tail remark of 250+ characters (last_comment_[256])", lambda t, tool, o: bool(_TAIL.search(t))),
+    "global-buffer-overflow:PARSERrun": ("scopes nested 19 or more deep (scopes[20])", lambda t, tool, o: _deep_scopes(t) >= 18),
+    "global-buffer-overflow:TypeBody_Description": ("ENUMERATION / SELECT item list longer than 5000 characters, exp2cxx",
+                                                    lambda t, tool, o: tool == "exp2cxx" and bool(_ITEMS.search(t))),
+    "signal-6:ENTITYPrint": ("identifier longer than 200 characters, code generators / pretty printer", _long_id),
+    "stack-buffer-overflow:EXPRstring": ("identifier longer than 200 characters, code generators / pretty printer", _long_id),
+    "ub:index N out of bounds for type 'char[N]':ClassName": ("identifier longer than 200 characters, code generators / pretty printer", _long_id),
+    "ub:index N out of bounds for type 'char[N]':StrToLower": ("identifier longer than 200 characters, code generators / pretty printer", _long_id),
 }
 
 
@@ -247,7 +263,7 @@ def campaign_chunk(arg):
             for sig, (desc, pred) in AVOID.items():
                 if sig in open_sigs and pred(text, tool, opts):
                     probes[sig] = probes.get(sig, 0) + 1
-                    if probes[sig] > 1:
+                    if probes[sig] > 2:
                         ev.exclude("shape of open finding excluded: " + desc)
                         skip = True
             if F9_SIG in open_sigs and tool == "exp2python" and has_attribute(text):
